@@ -77,6 +77,10 @@ func loadModule(name, dir, goos, goarch string, minPkgs int) *Module {
 	}
 	// E14: expand calls to functions that do not exist in the reference tree (inline.go)
 	var ist inlineStats
+	if dn := detectDeclRenames(pkgs, dir); len(dn) > 0 {
+		ist.Renamed = append(ist.Renamed, dn...)
+		fmt.Printf("normalisation (%s): renamed declarations recognised: %v\n", name, dn)
+	}
 	if rn := detectRenames(pkgs, dir); len(rn) > 0 {
 		ist.Renamed = rn
 		fmt.Printf("normalisation (%s): renamed reference functions recognised by receiver, parameter types and body: %v\n", name, rn)
@@ -266,6 +270,11 @@ func (m *Module) FuncOpt(pkg, spec string) *ssa.Function {
 		tname, mname := spec[:i], spec[i+1:]
 		obj := p.Pkg.Scope().Lookup(tname)
 		if obj == nil {
+			if nn, ok := newType[m.full(pkg)+"."+tname]; ok {
+				obj = p.Pkg.Scope().Lookup(nn)
+			}
+		}
+		if obj == nil {
 			return nil
 		}
 		tn, ok := obj.(*types.TypeName)
@@ -322,6 +331,11 @@ func (m *Module) GlobalVar(pkg, name string) *ssa.Global {
 	p := m.Pkg(pkg)
 	g, _ := p.Members[name].(*ssa.Global)
 	if g == nil {
+		if nn, ok := newVar[m.full(pkg)+"."+name]; ok {
+			g, _ = p.Members[nn].(*ssa.Global)
+		}
+	}
+	if g == nil {
 		infra("UNRESOLVED anchor var %s.%s", pkg, name)
 	}
 	return g
@@ -332,6 +346,11 @@ func (m *Module) GlobalVar(pkg, name string) *ssa.Global {
 func (m *Module) ConstVal(pkg, name string) string {
 	p := m.Pkg(pkg)
 	obj := p.Pkg.Scope().Lookup(name)
+	if obj == nil {
+		if nn, ok := newConst[m.full(pkg)+"."+name]; ok {
+			obj = p.Pkg.Scope().Lookup(nn)
+		}
+	}
 	c, ok := obj.(*types.Const)
 	if !ok {
 		infra("UNRESOLVED anchor const %s.%s", pkg, name)
@@ -418,6 +437,14 @@ func fname(fn *ssa.Function) string {
 		return "<nil>"
 	}
 	s := short(fn.String())
+	for full, old := range refType {
+		// a renamed receiver type reads as the reference type
+		i := strings.LastIndex(full, ".")
+		nw := short(full[:i+1]) + full[i+1:]
+		if strings.Contains(s, nw+")") {
+			s = strings.Replace(s, nw+")", short(full[:i+1])+old+")", 1)
+		}
+	}
 	if len(renameNewToOld) > 0 {
 		top := fn
 		for top.Parent() != nil {
